@@ -20,7 +20,7 @@ Clauses(c) ==
       o1 == Outcome(c, r)
       o2 == IF kf THEN Outcome(c, OpSetDefault_KF14(c.pre, c.kvm, c.vvm, c.a[1], c.a[2])) ELSE o1
   IN (IF o1 = {} THEN {} ELSE IF kf /\ o2 = {} THEN {"KF14"} ELSE o1)
-     \cup (IF c.builtin = r.post THEN {} ELSE {"spec-vs-builtin-dict"})
+     \cup (IF "suite" \in DOMAIN c \/ c.builtin = r.post THEN {} ELSE {"spec-vs-builtin-dict"})   \* (test-suite records carry no builtin twin)
      \cup (IF (IF c.op \in {"construct", "copy"} THEN c.evs = <<>> ELSE EventsOK(c.pre, c.evs, c.post))
            THEN {} ELSE {"event-law"})
 Judge == i <= 0 \/ LET f == Clauses(Trace[i]) IN IF f = {} THEN TRUE ELSE PrintT(<<"REJECT", i, f>>)
